@@ -51,6 +51,9 @@ Init0 ==
     seqLoose |-> FALSE,      \* unsettled AND the gateway handed out the same channel number again: the two
                              \* epochs cannot be told apart on the wire until a Send called after the switch transmits
     park |-> << >>,          \* own-channel acks taken in while no exchange was open: [seq, st, t]
+    closeLate |-> FALSE,     \* a Close overdue for twice its bound has been reported
+    dead |-> FALSE, deadIdle |-> 0, afterDead |-> {},   \* terminated by a disconnect response; Sends called after that
+    failOnce |-> FALSE,      \* the next socket write was made to fail once by the environment
     oldPark |-> << >>,       \* what was parked under the previous channel when the epoch switched with Sends still queued
     called |-> {},           \* pids with SendCall and no SendRet
     senders |-> {},          \* application goroutines seen calling Send
@@ -74,7 +77,7 @@ Init0 ==
     hbBadT |-> -1,           \* time of the last own-channel non-OK response, or -1
     \* ---- C05
     bus |-> << >>, busSet |-> {}, succLastIdx |-> 0,
-    gwAcked |-> {}, recvd |-> {}, toSeqs |-> {}, lastAckedIdx |-> 0, accSeq |-> << >>,
+    gwAcked |-> {}, recvd |-> {}, toSeqs |-> {}, seSeqs |-> {}, lastAckedIdx |-> 0, accSeq |-> << >>,
     \* ---- verdicts of this step
     bad |-> << >>, note |-> << >> ]
 
@@ -115,7 +118,13 @@ Tick(o, t) ==
                             !.ex.ft = IF o3.ex.fate = "open" THEN t ELSE @,
                             !.ex.fate = IF @ = "open" THEN "term" ELSE @]
             ELSE o3
-  IN o4
+      \* a Close that has not returned long after its bound never will (judged once, at the first event past the bound;
+      \* a Close that does return late is flagged at its CloseRet)
+      o5 == IF o4.closeCalled /\ ~o4.closeRet /\ ~o4.closeLate /\ Len(o4.closeAt) > 0
+               /\ t > o4.closeAt[1].t + 2 * ((2 + Cardinality(o4.senders)) * o4.T + o4.R) + USlk(o4)
+            THEN Flag([o4 EXCEPT !.closeLate = TRUE], "C10.CloseBounded")
+            ELSE o4
+  IN o5
 
 -----------------------------------------------------------------------------
 (* Epochs *)
@@ -132,7 +141,7 @@ StartEpoch(o, ch, t) ==
             !.oldCh = o.ch, !.oldNext = o.sndNext,
             !.seqLoose = (o.called \ o.everTx # {} /\ ch = o.ch),
             !.sndNext = 0, !.sndAlt = 0, !.rcvExp = 0, !.hb = << >>, !.hbOk = << >>,
-            !.hbBadT = -1, !.cause = FALSE, !.reconnDue = FALSE, !.toSeqs = {},
+            !.hbBadT = -1, !.cause = FALSE, !.reconnDue = FALSE, !.toSeqs = {}, !.seSeqs = {},
             !.ackDue = [ch |-> -1, seq |-> -1], !.discDue = -1]
 
 \* The tunnel terminates: an open exchange ends with it (its Send fails).
@@ -325,7 +334,8 @@ SendRet(o, e) ==
       o4 == IF x.fate = "ack0" /\ cls # "ok" THEN Note(o3c, "drift.AckedButFailed") ELSE o3c
       o5 == IF cls = "timeout" /\ transmitted /\ ~Near(o, e.t, x.first + o.T) THEN Note(o4, "drift.TimeoutTime") ELSE o4
       \* C10: after Close has returned Send never succeeds
-      o5b == FlagIf(o5, cls = "ok" /\ e.pid \in o.afterClose, "C10.SendAfterCloseFails")
+      o5a == FlagIf(o5, cls = "ok" /\ e.pid \in o.afterDead, "C09.SendsFailAfterTermination")
+      o5b == FlagIf(o5a, cls = "ok" /\ e.pid \in o.afterClose, "C10.SendAfterCloseFails")
       \* a failed Send ends its exchange
       o5c == IF o5b.ex.pid = e.pid /\ ExOpen(o5b) /\ cls # "ok"
              THEN [o5b EXCEPT !.ex.fate = IF cls = "timeout" THEN "timeout" ELSE "term", !.ex.ft = e.t] ELSE o5b
@@ -347,10 +357,14 @@ SendRet(o, e) ==
               \* known finding C05-F1: the sequence number of a timed-out Send whose request did reach
               \* the gateway is reused; the gateway re-acknowledges it as a repetition
               f1 == \E y \in o.toSeqs : y.seq = x.seq /\ y.pid \in o.busSet
-              o7 == FlagIf(o6, ~onBus, IF f1 THEN "C05.F1.BusExactlyOnce" ELSE "C05.BusExactlyOnce")
+              \* known finding C05-F2: the same reuse after a Send that failed with a socket write error on a
+              \* RETRANSMISSION, its first transmission having reached the gateway
+              f2 == \E y \in o.seSeqs : y.seq = x.seq /\ y.pid \in o.busSet
+              o7 == FlagIf(o6, ~onBus, IF f1 THEN "C05.F1.BusExactlyOnce" ELSE IF f2 THEN "C05.F2.BusExactlyOnce" ELSE "C05.BusExactlyOnce")
               o8 == FlagIf(o7, onBus /\ idx <= o.succLastIdx, "C05.BusOrder")
           IN [o8 EXCEPT !.succLastIdx = IF onBus THEN idx ELSE @]
      ELSE IF cls = "timeout" /\ transmitted THEN [o6 EXCEPT !.toSeqs = @ \cup {[seq |-> x.seq, pid |-> e.pid]}]
+     ELSE IF cls = "sockerr" /\ transmitted THEN [o6 EXCEPT !.seSeqs = @ \cup {[seq |-> x.seq, pid |-> e.pid]}]
      ELSE o6
 
 -----------------------------------------------------------------------------
@@ -434,8 +448,10 @@ InDiscReq(o, e) ==
   THEN [o EXCEPT !.discDue = e.ch, !.cause = TRUE, !.reconnDue = TRUE]
   ELSE o
 
+\* a disconnect response for the current channel (whatever its status) ends the tunnel: from the next quiescent point
+\* on Inbound is closed and Sends fail (dead / deadIdle / afterDead are judged at RecvNone and SendRet)
 InDiscRes(o, e) ==
-  IF o.phase = "up" /\ e.ch = o.ch THEN Terminate([o EXCEPT !.termCause = TRUE]) ELSE o
+  IF o.phase = "up" /\ e.ch = o.ch THEN Terminate([o EXCEPT !.termCause = TRUE, !.dead = TRUE, !.deadIdle = o.idles]) ELSE o
 
 OutDiscRes(o, e) ==
   IF o.discDue = -1 THEN Flag(o, "C09.ForeignInert")
@@ -485,9 +501,14 @@ Cfg(o, e) ==
 \* reconnect: the sender / receiver clauses that express this are attributed to C09 as well when
 \* they are flagged in a later epoch.
 EpochTags == {"C03.AckedConsecutive", "C04.AckMissing", "C04.AckSpurious", "C04.AckExact", "C04.DeliverIff"}
+\* C05 speaks of telegrams "accepted for delivery to the application exactly once": a telegram the application receives
+\* twice, or never although it was accepted (C04's delivery clauses), is reported under C05 as well.
+AppTags == {"C04.NoDupDelivery", "C04.NothingLost"}
 Alias(o) ==
-  IF o.epoch >= 2 /\ (\E i \in 1..Len(o.bad) : o.bad[i] \in EpochTags) /\ ~(\E i \in 1..Len(o.bad) : o.bad[i] = "C09.EpochFresh")
-  THEN [o EXCEPT !.bad = Append(@, "C09.EpochFresh")] ELSE o
+  LET o1 == IF o.epoch >= 2 /\ (\E i \in 1..Len(o.bad) : o.bad[i] \in EpochTags) /\ ~(\E i \in 1..Len(o.bad) : o.bad[i] = "C09.EpochFresh")
+            THEN [o EXCEPT !.bad = Append(@, "C09.EpochFresh")] ELSE o
+  IN IF (\E i \in 1..Len(o1.bad) : o1.bad[i] \in AppTags) /\ ~(\E i \in 1..Len(o1.bad) : o1.bad[i] = "C05.AppExactlyOnce")
+     THEN [o1 EXCEPT !.bad = Append(@, "C05.AppExactlyOnce")] ELSE o1
 
 Step0(o, e) ==
   IF e.k = "Cfg" THEN Cfg(o, e)
@@ -502,12 +523,16 @@ Step0(o, e) ==
   IN
   CASE e.k = "Out"  -> Out(oc, e)
     [] e.k = "In"   -> In(oc, e)
-    [] e.k = "OutErr" -> [oc EXCEPT !.cause = TRUE, !.termCause = TRUE]
+    \* a failed socket write: after a TRANSIENT failure (announced by SockFail "once") the tunnel goes on - a failed
+    \* acknowledgement is merely logged, a failed request makes its Send fail, a failed heartbeat may lead to a reconnect
+    [] e.k = "OutErr" -> [oc EXCEPT !.cause = TRUE, !.termCause = @ \/ ~oc.failOnce, !.failOnce = FALSE]
     [] e.k = "SendCall" -> [oc EXCEPT !.called = @ \cup {e.pid}, !.senders = @ \cup {e.g},
+                                      !.afterDead = IF oc.dead /\ oc.exact /\ oc.idles > oc.deadIdle THEN @ \cup {e.pid} ELSE @,
                                       !.afterClose = IF oc.closeRet THEN @ \cup {e.pid} ELSE @]
     [] e.k = "SendRet"  -> SendRet(oc, e)
     [] e.k = "Recv"     -> Recv(oc, e)
-    [] e.k = "RecvNone" -> FlagIf(oc, oc.closeRet, "C10.InboundClosedAfterClose")
+    [] e.k = "RecvNone" -> FlagIf(FlagIf(oc, oc.closeRet, "C10.InboundClosedAfterClose"),
+                                  oc.dead /\ oc.exact /\ oc.idles > oc.deadIdle, "C09.TerminationClosesInbound")
     [] e.k = "RecvClosed" -> FlagIf(oc, ~(\/ oc.phase = "down" \/ oc.termCause \/ oc.closeCalled \/ oc.sockDead
                                              \/ (oc.phase = "connecting" /\ t >= oc.connT + oc.T - Slk(oc))), "C09.SpuriousTermination")
     [] e.k = "Drained"  -> LET open == oc.phase = "up" /\ ~oc.termCause /\ ~oc.closeCalled
@@ -529,7 +554,7 @@ Step0(o, e) ==
                                 o1 == FlagIf(oc, t - t0 > (2 + Cardinality(oc.senders)) * oc.T + oc.R + USlk(oc), "C10.CloseBounded")
                                 o2 == FlagIf(o1, oc.discOut = 0 /\ ~oc.sockSendFail /\ ~oc.sockDead, "C10.OneDisc")
                             IN Terminate([o2 EXCEPT !.closeRet = TRUE])
-    [] e.k = "SockFail"  -> IF e.s = "send" THEN [oc EXCEPT !.sockSendFail = TRUE, !.termCause = TRUE, !.cause = TRUE]
+    [] e.k = "SockFail"  -> IF e.s = "once" THEN [oc EXCEPT !.failOnce = TRUE] ELSE IF e.s = "send" THEN [oc EXCEPT !.sockSendFail = TRUE, !.termCause = TRUE, !.cause = TRUE]
                             ELSE [oc EXCEPT !.sockDead = TRUE, !.termCause = TRUE, !.cause = TRUE]
     [] e.k = "SockClose" -> [oc EXCEPT !.sockClosed = TRUE]
     [] e.k = "GwBus"     -> LET o1 == FlagIf(oc, e.a \in oc.busSet, "C05.BusTwice")
